@@ -86,6 +86,19 @@ func (g *Gen) harnessDiff(oa, ob *Occ, prop string) {
 			}
 		}
 	}
+	// C15: a second read into the targets the first read filled (each variant into its own target): what a
+	// variant leaves behind from an earlier read must not depend on the declaration order either
+	reused := ""
+	if prop == "C15" {
+		reused = fmt.Sprintf(`	src2, _ := havocTF_%s(tfOpt{OneBranch: true})
+	da3 := %sCopy%sFromTerraform(ctx, src2, &pa)
+	db3 := Copy%sFromTerraform(ctx, src2, &pb)
+	vrt.CheckNoPanic(%q)
+	vrt.Assert(%q, !da3.HasError() && !db3.HasError())
+	normEq_%s(&pa, &pb, %q, %q, %q)
+`, oa.ID, g.FQ, oa.MsgName, oa.MsgName, pre+oa.MsgName+"/copyfrom-reused:no-panic", pre+oa.MsgName+"/copyfrom-reused:no-error-diagnostic",
+			ob.ID, pre+"from-reused/", pre+"from-reused/", oa.MsgName)
+	}
 	g.p(`func %s() {
 	ctx := context.Background()
 	var obj %s%s
@@ -105,7 +118,7 @@ func (g *Gen) harnessDiff(oa, ob *Occ, prop string) {
 	vrt.CheckNoPanic(%q)
 	vrt.Assert(%q, !da2.HasError() && !db2.HasError())
 	normEq_%s(&pa, &pb, %q, %q, %q)
-%s	// B's schema against the oracle built from B's configuration: the option hits exactly the addressed fields
+%s%s	// B's schema against the oracle built from B's configuration: the option hits exactly the addressed fields
 	sb, dsb := GenSchema%s(ctx)
 	vrt.Assert(%q, !dsb.HasError())
 	schemaCheck_%s(sb.Attributes, %q)
@@ -116,5 +129,5 @@ func (g *Gen) harnessDiff(oa, ob *Occ, prop string) {
 		ob.ID, pre+"to/", oa.MsgName, ne, oa.MsgName,
 		oa.ID, g.TQ, oa.MsgName, g.FQ, oa.MsgName, oa.MsgName,
 		pre+oa.MsgName+"/copyfrom:no-panic", pre+oa.MsgName+"/copyfrom:no-error-diagnostic",
-		ob.ID, pre+"from/", pre+"from/", oa.MsgName, ex.String(), oa.MsgName, pre+oa.MsgName+"/schema:no-error-diagnostic", ob.ID, oa.MsgName, oa.MsgName)
+		ob.ID, pre+"from/", pre+"from/", oa.MsgName, ex.String(), reused, oa.MsgName, pre+oa.MsgName+"/schema:no-error-diagnostic", ob.ID, oa.MsgName, oa.MsgName)
 }
